@@ -156,6 +156,23 @@ func (c *Ctx) runTop(fn *ssa.Function, spec *FuncSpec, useGaps bool) (err error)
 			o := c.obligeAt(stp, "on_panic", name+"/clean", not(pe.dirty), "nothing is written before the panic at "+pe.pos)
 			o.Pos = pe.pos
 		}
+		k := 0
+		for _, cl := range spec.Clauses {
+			if cl.Kind != "on_panic" {
+				continue
+			}
+			k++
+			goal := "false"
+			if pe.st != nil {
+				penv := c.frameEnv(fr, pe.st)
+				penv.old = c.st0
+				goal = c.evalBool(penv, cl.E)
+			}
+			for j, part := range splitAndDeep(goal) {
+				o := c.obligeAt(stp, "on_panic", fmt.Sprintf("%s/on_panic#%d.%d", name, k, j+1), part, "at the panic at "+pe.pos+": "+cl.Text)
+				o.Pos = pe.pos
+			}
+		}
 	}
 	if exit == nil {
 		return nil
@@ -173,6 +190,17 @@ func (c *Ctx) runTop(fn *ssa.Function, spec *FuncSpec, useGaps bool) (err error)
 	post.cur = exit
 	// canary: the exit must be reachable under the assumptions (no contradiction)
 	c.obls = append(c.obls, &Obligation{Name: c.fn + "/cover#exit", Kind: "cover", Func: c.fn, Prefix: len(c.script), Goal: not(exit.reach), Expect: "sat", Text: "normal exit is reachable (assumptions are not contradictory)", Pos: c.P.pos(fn.Pos())})
+	// hints: exit-time facts proved first and then available to the remaining exit-time obligations
+	hn := 0
+	for _, cl := range spec.Clauses {
+		if cl.Kind != "hint" {
+			continue
+		}
+		hn++
+		g := c.evalBool(post, cl.E)
+		c.oblige(exit, "ensures", fmt.Sprintf("%s/hint#%d", c.fn, hn), g, "hint "+cl.Text)
+		c.assumeUnder(exit, g)
+	}
 	n := 0
 	for _, cl := range spec.Clauses {
 		if cl.Kind != "ensures" {
@@ -244,7 +272,17 @@ func (c *Ctx) assumeParam(st *State, v Val, t types.Type) {
 // ghostAssign executes "ghost lhs := rhs" on the exit state.
 func (c *Ctx) ghostAssign(env *Env, st *State, cl *Clause) {
 	env = env.with(st)
-	rhs := env.eval(cl.RHS)
+	var rhs Val
+	constFill := false
+	if call, ok := cl.RHS.(*ECall); ok {
+		if id, ok := call.Fn.(*EIdent); ok && id.Name == "const" && len(call.Args) == 1 {
+			constFill = true
+			rhs = env.eval(call.Args[0])
+		}
+	}
+	if !constFill {
+		rhs = env.eval(cl.RHS)
+	}
 	switch l := cl.LHS.(type) {
 	case *ESel:
 		base, ok := env.structBase(l.X)
@@ -255,7 +293,16 @@ func (c *Ctx) ghostAssign(env *Env, st *State, cl *Clause) {
 		if g == nil {
 			sfail("ghost assignment to non-ghost field %s", l.Name)
 		}
-		name, _, t := env.ghostHeap(g)
+		name, vs, t := env.ghostHeap(g)
+		if constFill {
+			mt, ok := t.(*types.Map)
+			if !ok {
+				sfail("const() needs a ghost map")
+			}
+			rhs = env.typed(rhs, mt.Elem())
+			c.hset(st, name, fmt.Sprintf("(store %s %s ((as const %s) %s))", c.hget(st, name), base.ref, vs, rhs.T))
+			return
+		}
 		rhs = env.typed(rhs, t)
 		c.hset(st, name, fmt.Sprintf("(store %s %s %s)", c.hget(st, name), base.ref, rhs.T))
 	case *EIndex:
@@ -356,6 +403,7 @@ func flatStruct(t types.Type) bool {
 		ft := s.Field(i).Type()
 		switch classOf(ft) {
 		case CBool, CInt:
+		case CSmallArr:
 		case CArray:
 			if classOf(under(ft).(*types.Array).Elem()) != CInt {
 				return false
